@@ -205,6 +205,15 @@ func execPubCase(x *execCtx) {
 					r.progress.Add(1)
 				}))
 			}
+			// the options are independent of each other: every order must configure the same subscriber
+			if k := (idx*7 + len(line)) % len(opts); k > 0 {
+				opts = append(append([]publisher.SubscriberOption[int]{}, opts[k:]...), opts[:k]...)
+			}
+			if idx%2 == 0 {
+				for i, j := 0, len(opts)-1; i < j; i, j = i+1, j-1 {
+					opts[i], opts[j] = opts[j], opts[i]
+				}
+			}
 			s := r.p.Subscribe(atoi(f["cap"]), opts...)
 			r.mu.Lock()
 			r.subs = append(r.subs, &pubSub{s: s})
